@@ -4,7 +4,7 @@
   (attributes[i].handle == i + 1), which is what makes handle lookups, ranges and group ends line up.
 Server.add_service (group ends, declaration value handle) is NOT under contract: see notes/C12/NOTES.md.
 """
-from pyvc.contracts import ConcList, Inst, Int, OneOf, contract, model
+from pyvc.contracts import ConcList, Inst, Int, OneOf, contract, model, same
 
 model('bumble.att:Attribute#h', fields=dict(handle=Int, end_group_handle=Int))
 ATTR_H = Inst('bumble.att:Attribute#h')
@@ -23,7 +23,7 @@ def positions(self):
 def same_prefix(new, old_list):
     ok = len(new) >= len(old_list)
     for i in range(len(old_list)):
-        ok = ok and new[i] is old_list[i]
+        ok = ok and same(new[i], old_list[i])
     return ok
 
 
